@@ -126,11 +126,11 @@ impl Property for C04 {
         "C04"
     }
     fn rule(&self) -> &'static str {
-        "case = (a) function x simultaneous replacement map (1..4 entries, degree<=2, may mention replaced variables; also pure renaming maps whose targets are keys) | (b) instance x replacement map over remaining variables, optionally two successive substitute calls (chains) or log_encode->substitute, x in-bound state, then evaluate (a replaced variable may carry a value recorded earlier) | (c) raw dependency graph on <=5 dependent variables (DAG, chain, diamond, cycle, self-loop, dangling) evaluated under every iteration order of the dependency HashMap (map rebuilt until all n! orders were observed), failing graphs also through evaluate_samples; \
+        "case = (a) function x simultaneous replacement map (1..4 entries, degree<=2, may mention replaced variables; also pure renaming maps whose targets are keys) | (b) instance x replacement map over remaining variables, optionally two successive substitute calls (chains) or log_encode->substitute, x in-bound state, then evaluate (a replaced variable may carry a value recorded earlier), optionally evaluated again after a history of other transformations (relax + restore, as_minimization_problem, penalty method + with_parameters) which must not change the reported values of replaced variables | (c) raw dependency graph on <=5 dependent variables (DAG, chain, diamond, cycle, self-loop, dangling) evaluated under every iteration order of the dependency HashMap (map rebuilt until all n! orders were observed), failing graphs also through evaluate_samples; \
          oracle = exact simultaneous composition; reference evaluator with topological dependency evaluation; non-trivial = >=2 replacements with one of degree>=1, or chain length>=2, or cyclic/dangling graph; distinct = sha256(case)"
     }
     fn required_labels(&self) -> Vec<String> {
-        ["mode=function", "mode=instance", "mode=graph", "mode=log-encode", "simultaneous-overlap", "chain", "cycle", "dangling", "self-loop", "removed-constraint", "all-orders-seen", "two-substitute-calls", "n=5", "regime=general", "regime=dyadic", "renaming-map", "renaming-target-is-a-key", "replaced-variable-had-a-recorded-value"]
+        ["mode=function", "mode=instance", "mode=graph", "mode=log-encode", "simultaneous-overlap", "chain", "cycle", "dangling", "self-loop", "removed-constraint", "all-orders-seen", "two-substitute-calls", "n=5", "regime=general", "regime=dyadic", "renaming-map", "renaming-target-is-a-key", "replaced-variable-had-a-recorded-value", "history-after-substitute", "history=penalty-method"]
             .iter()
             .map(|s| s.to_string())
             .collect()
@@ -257,6 +257,8 @@ impl C04 {
         cfg.func.max_terms = 5;
         let two_calls = t.p(90);
         let kmask = t.u16();
+        // other API calls between substitute and evaluate (0 = none): the replaced variables must still be reported
+        let history = if t.p(70) { 1 + t.choice(7) } else { 0 };
         let gi = gen_instance(t, &cfg, ctx);
         let mut inst = gi.inst.clone();
         let mut oracle_inst = gi.inst.clone();
@@ -500,7 +502,61 @@ impl C04 {
                 compare_solution("C04/instance/solution", &sol, &m, &o).map_err(|mut f| {
                     f.message = ctxmsg(f.message);
                     f
-                })
+                })?;
+                if history == 0 {
+                    return Ok(());
+                }
+                // A history of other transformations after substitute (bit 0: relax + restore of an active constraint,
+                // bit 1: conversion to a minimisation problem, bit 2: penalty method + instantiation of the weights).
+                // None of them touches what a replaced variable stands for: the reported values must stay the same.
+                let mut h = inst.clone();
+                let mut applied = false;
+                if history & 1 != 0 {
+                    if let Some(cid) = h.constraints.first().map(|c| c.id) {
+                        if h.relax_constraint(cid, "history".into(), std::collections::HashMap::new()).is_ok() && h.restore_constraint(cid).is_ok() {
+                            applied = true;
+                        }
+                    }
+                }
+                if history & 2 != 0 {
+                    h.as_minimization_problem();
+                    applied = true;
+                }
+                if history & 4 != 0 && !h.decision_variables.iter().any(|v| v.id > u64::MAX - 64) {
+                    let uniform = kmask & 0x100 != 0;
+                    let pi = if uniform { h.clone().uniform_penalty_method() } else { h.clone().penalty_method() };
+                    if let Ok(pi) = pi {
+                        let mut w = v1::Parameters::default();
+                        for (i, p) in pi.parameters.iter().enumerate() {
+                            w.entries.insert(p.id, [0.0, 1.0, 2.5][i % 3]);
+                        }
+                        if let Ok(back) = pi.with_parameters(w) {
+                            h = back;
+                            applied = true;
+                            ctx.label("history=penalty-method");
+                        }
+                    }
+                }
+                if !applied {
+                    return Ok(());
+                }
+                ctx.label("history-after-substitute");
+                let (sol2, _) = match h.evaluate(&state) {
+                    Ok(x) => x,
+                    Err(e) => return fail("C04/instance/history/evaluate-err", ctxmsg(format!("evaluate failed after substitute followed by other transformations (history mask {history}): {e:#}"))),
+                };
+                let (s_a, s_b) = (sol.state.clone().unwrap_or_default(), sol2.state.clone().unwrap_or_default());
+                for k in &replaced {
+                    let (a, b) = (s_a.entries.get(k).copied(), s_b.entries.get(k).copied());
+                    let same = match (a, b) {
+                        (Some(x), Some(y)) => (x - y).abs() <= 1e-9 * (1.0 + x.abs().max(y.abs())),
+                        _ => false,
+                    };
+                    if !same {
+                        return fail("C04/instance/history/replaced-variable-value", ctxmsg(format!("replaced variable {k} is reported as {a:?} right after substitute but as {b:?} after the further transformations (history mask {history}: 1 relax+restore, 2 as_minimization_problem, 4 penalty method + with_parameters)")));
+                    }
+                }
+                Ok(())
             }
         }
     }
